@@ -405,6 +405,10 @@ def _generate_struct_info(cs: cstruct, fields: list[Field], align: bool = False)
             count = read_type.num_entries
             read_type = _get_read_type(cs, read_type.type)
 
+            # Arrays of voids occupy nothing either
+            if issubclass(read_type, Void):
+                continue
+
         # Take the pack char for Packed
         if issubclass(read_type, Packed):
             yield field, count, read_type.packchar
@@ -413,6 +417,10 @@ def _generate_struct_info(cs: cstruct, fields: list[Field], align: bool = False)
         # We don't actually unpack anything here but slice directly out of the buffer
         elif issubclass(read_type, (Char, Wchar, Int)):
             yield field, count * read_type.size, "x"
+
+        else:
+            # E.g. an array of a custom type, leaving it out of the block would silently skip the field
+            raise TypeError(f"Unsupported type for compiler: {read_type}")
 
         size = count * read_type.size
         imaginary_offset += size
